@@ -25,7 +25,7 @@ pub fn hex_e(b: &[u8]) -> String { if b.is_empty() { "e".into() } else { hex(b) 
 pub fn unhex(s: &str) -> Vec<u8> { (0..s.len() / 2).map(|i| u8::from_str_radix(&s[2 * i..2 * i + 2], 16).unwrap()).collect() }
 pub fn env_u64(name: &str, default: u64) -> u64 { std::env::var(name).ok().and_then(|x| x.parse().ok()).unwrap_or(default) }
 /// silence the default panic hook (panics of the code under test are observations)
-pub fn quiet_panics() { std::panic::set_hook(Box::new(|_| {})); }
+pub fn quiet_panics() { if std::env::var_os("VERIF_LOUD_PANICS").is_none() { std::panic::set_hook(Box::new(|_| {})); } }
 /// JSON string literal (with quotes) for arbitrary text
 pub fn jstr(s: &str) -> String {
     let mut o = String::from("\"");
@@ -38,4 +38,10 @@ pub fn jstr(s: &str) -> String {
 /// one monitor failure as a JSON object: kind, detail, ops (list of strings) and extra raw fields
 pub fn fail_json(kind: &str, detail: &str, ops: &[String], extra: &str) -> String {
     format!("{{\"kind\":{},\"detail\":{},\"ops\":[{}]{}}}", jstr(kind), jstr(detail), ops.iter().map(|o| jstr(o)).collect::<Vec<_>>().join(","), extra)
+}
+
+/// raise the descriptor limit to the hard limit (crash steps deliberately leak the descriptors of forgotten temp files)
+pub fn raise_nofile() {
+    unsafe { let mut r = libc::rlimit { rlim_cur: 0, rlim_max: 0 };
+        if libc::getrlimit(libc::RLIMIT_NOFILE, &mut r) == 0 { r.rlim_cur = r.rlim_max; libc::setrlimit(libc::RLIMIT_NOFILE, &r); } }
 }
